@@ -3,6 +3,7 @@
     GoChannel/Reg.v (Layer B: which (publication, subscription) pairs get a Sender). *)
 From WM Require Import Base.Prelude Message.Model GoChannel.Sub GoChannel.SubProofs
                        GoChannel.Reg GoChannel.RegLocks GoChannel.RegInv GoChannel.RegSend.
+From WM Require GoChannel.SubInvX GoChannel.Monitor GoChannel.MonitorSound GoChannel.SubCtx.
 
 (** "A subscription sees a given published message again only after it Nacked the previous
     delivery of it": for every buffer size, any number of Senders, every consumer behaviour and
@@ -82,6 +83,54 @@ Print Assumptions C04_at_most_one_sender.
 Theorem C04_senders_only_grow : forall s ls, exists new, senders (grun s ls) = new ++ senders s.
 Proof. exact senders_monotone. Qed.
 Print Assumptions C04_senders_only_grow.
+
+(** ** The acceptor and the delivery context *)
+
+(** the executable acceptor that judges implementation histories ([Monitor.mon_no_dup]: a message
+    is seen again only after a Nack, never after an Ack) accepts every behaviour of the model,
+    both loop variants, provided no two Senders carry the same publication - which is what the
+    registry layer guarantees ([C04_at_most_one_sender]) *)
+Theorem C04_no_dup_acceptor_sound : forall x cap0 fx ls,
+  NoDup (MonitorSound.spawn_pubs ls) -> Monitor.mon_no_dup (MonitorSound.trace x (sinit cap0 fx) ls) = [].
+Proof. exact MonitorSound.no_dup_sound. Qed.
+Print Assumptions C04_no_dup_acceptor_sound.
+
+(** "Each delivery ... whose context ... is live on receipt": the context of a copy lives as long
+    as its Sender call ([ctx, cancel := WithCancel(s.ctx); defer cancel()]); when the consumer
+    receives a copy from the buffer of a subscription that is not closing, or by direct hand-off,
+    the Sender has not returned *)
+Theorem C04_context_live_on_receipt : forall s s' c b, SubInvX.SX s -> buf s = c :: b ->
+  sstep s LRecv = Some s' -> closing s = false ->
+  SubCtx.ctx_live s c = true /\ SubCtx.ctx_live s' c = true /\ c_recv (copies s' c) = true.
+Proof. exact SubCtx.recv_ctx_live. Qed.
+Print Assumptions C04_context_live_on_receipt.
+Theorem C04_context_live_on_handoff : forall s s' t p c, SubInvX.SX s -> Sub.thr s t = SSend p c ->
+  sstep s (LHandoff t) = Some s' ->
+  SubCtx.ctx_live s c = true /\ SubCtx.ctx_live s' c = true /\ c_recv (copies s' c) = true.
+Proof. exact SubCtx.handoff_ctx_live. Qed.
+Print Assumptions C04_context_live_on_handoff.
+(** [SX] holds in every reachable state *)
+Theorem C04_reachable_states_satisfy_SX : forall cap0 fx ls, SubInvX.SX (srun (sinit cap0 fx) ls).
+Proof. exact SubInvX.sx_reach. Qed.
+Print Assumptions C04_reachable_states_satisfy_SX.
+
+(** "... and is cancelled after the Ack": the Sender that observed the Ack can take its next step,
+    which cancels the context, and it never becomes live again *)
+Theorem C04_context_cancelled_after_ack : forall s t p c s1, SInv s -> Sub.thr s t = SWait p c ->
+  sstep s (LSeeAcked t) = Some s1 ->
+  Sub.thr s1 t = SExit p /\ SubCtx.ctx_live s1 c = true
+  /\ exists s2, sstep s1 (LStep t) = Some s2 /\ Sub.thr s2 t = Sub.SDone p /\ SubCtx.ctx_live s2 c = false
+                /\ forall ls, SubCtx.ctx_live (srun s2 ls) c = false.
+Proof. exact SubCtx.ack_cancels_ctx. Qed.
+Print Assumptions C04_context_cancelled_after_ack.
+
+(** why the acceptor exempts closing subscriptions: a buffered copy can be received after its
+    Sender saw [closing] and returned - the context is then dead on receipt (both loop variants) *)
+Example C04_closing_receive_has_dead_context : forall fx,
+  let s := srun (sinit 1 fx) SubCtx.dead_ctx_schedule in
+  buf s = [0] /\ closing s = true /\ Sub.thr s 0 = Sub.SDone 10 /\ SubCtx.ctx_live s 0 = false
+  /\ exists s', sstep s LRecv = Some s' /\ c_recv (copies s' 0) = true /\ SubCtx.ctx_live s' 0 = false.
+Proof. exact SubCtx.closing_recv_dead_ctx. Qed.
 
 (** non-vacuity: a run in which a message is Nacked twice and then Acked - three copies, the
     first two Nacked, one Sender *)
